@@ -20,11 +20,38 @@ import traceback
 VERIF = os.path.dirname(os.path.dirname(os.path.abspath(__file__)))
 
 
+def wanted_hashseed(argv):
+    """The interpreter's hash seed is part of the scenario: it fixes the
+    iteration order of the library's sets of strings.  It is derived from
+    VERIF_SEED (so different seed blocks explore different orders, and one
+    seed is still one exactly repeatable execution) and recorded in every
+    replay file."""
+    seed = int(os.environ.get('VERIF_SEED', '0') or 0)
+    replay = None
+    for i, a in enumerate(argv):
+        if a == '--seed' and i + 1 < len(argv):
+            seed = int(argv[i + 1])
+        elif a.startswith('--seed='):
+            seed = int(a.split('=', 1)[1])
+        elif a == '--replay' and i + 1 < len(argv):
+            replay = argv[i + 1]
+        elif a.startswith('--replay='):
+            replay = a.split('=', 1)[1]
+    if replay is not None:
+        try:
+            with open(replay) as f:
+                return str(json.load(f).get('hashseed', 0))
+        except Exception:
+            return '0'
+    return str((seed * 7919) % 4096)
+
+
 def _reexec_with_hashseed():
-    if os.environ.get('PYTHONHASHSEED') != '0' and \
+    want = wanted_hashseed(sys.argv[1:])
+    if os.environ.get('PYTHONHASHSEED') != want and \
             not os.environ.get('FBSIM_KEEP_HASHSEED'):
         env = dict(os.environ)
-        env['PYTHONHASHSEED'] = '0'
+        env['PYTHONHASHSEED'] = want
         os.execve(sys.executable, [sys.executable] + sys.argv, env)
 
 
@@ -109,7 +136,8 @@ def write_replay(prop, sc, res, extra=None):
     name = digest(sc, 12) + '.json'
     path = os.path.join(d, name)
     doc = {'property': prop, 'violation': res['violation'],
-           'log_digest': res.get('log_digest'), 'scenario': sc}
+           'log_digest': res.get('log_digest'), 'scenario': sc,
+           'hashseed': int(os.environ.get('PYTHONHASHSEED', '0') or 0)}
     if extra:
         doc.update(extra)
     with open(path, 'w') as f:
